@@ -196,6 +196,9 @@ func VerifC19Provide() {
 		sel = newBestSelector(time.Hour)
 		sel.Increment(vAddrs[b])
 		sel.Increment(vAddrs[b])
+		if vrt.Param("aged") == 1 {
+			sel.start = sel.start.Add(-2 * time.Hour)
+		}
 	}
 	ctx, cancel := context.WithCancel(context.Background())
 	vCancelAtJoin, vCancel = cancelled, cancel
@@ -204,6 +207,11 @@ func VerifC19Provide() {
 	if vrt.Param("prior") == 1 && nf > 0 {
 		if sel == nil {
 			sel = newBestSelector(time.Hour)
+		}
+		if vrt.Param("aged") == 1 {
+			// the selector is older than its counting period (the engine's clock is arbitrary anyway; this makes the native
+			// replay take the roll-over branch of Increment)
+			sel.start = sel.start.Add(-2 * time.Hour)
 		}
 		var pp, pf []Client
 		for i := 0; i < np; i++ {
